@@ -4,9 +4,39 @@ from . import rtprop
 THEOREMS = ['FlexVerif.bufferOp_start', 'FlexVerif.doWrap_start', 'FlexVerif.inputOp_start', 'FlexVerif.commonOp_start_frame', 'FlexVerif.runAction_start', 'FlexVerif.runAlternatives_start', 'FlexVerif.lexCall_start', 'FlexVerif.runMain_start', 'FlexVerif.SafeScr_of_safeScrB', 'FlexVerif.push_pop', 'FlexVerif.pop_underflow', 'FlexVerif.stack_lifo', 'FlexVerif.validate_sound']
 
 
+STACK_THEOREMS = ['FlexVerif.C05Stack.' + t for t in ('push_refines', 'pop_refines', 'pop_empty', 'top_refines', 'begin_refines',
+                                                      'lexInit_refines', 'stack_refines', 'never_out_of_bounds', 'start_state_encoding')]
+
+
+def regen_startstack():
+    """translate yy_push_state / yy_pop_state / yy_top_state / yybegin / yystart / the initialisation of yy_start from a scanner
+    flex generates now into lean/FlexVerif/Gen/StartStack.lean"""
+    import os, fcntl
+    from . import flexrun, gen_startstack, common
+    flex, src = flexrun.build_flex()
+    try:
+        body, info = gen_startstack.generate(flex, flexrun.scratch_root())
+    except gen_startstack.TranslateError as e:
+        return None, str(e)
+    path = os.path.join(common.LEAN_DIR, 'FlexVerif', 'Gen', 'StartStack.lean')
+    lock = open(os.path.join(common.LEAN_DIR, '.build.lock'), 'w')
+    fcntl.flock(lock, fcntl.LOCK_EX)
+    try:
+        old = open(path).read() if os.path.exists(path) else ''
+        if old != body:
+            open(path, 'w').write(body)
+    finally:
+        fcntl.flock(lock, fcntl.LOCK_UN)
+        lock.close()
+    return info, None
+
+
 def run(ctx):
+    info, err = regen_startstack()
+    if err:
+        ctx.violation('translator of the start-condition stack functions gave up: ' + err, {'error': err}, no_input=True)
     q1, q2, q3 = {'quick': (64, 48, 32), 'thorough': (600, 400, 200)}[ctx.tier]
     plan = [('eof', q1, 6), ('ops', q2, 6), ('deepstack', q3, 4)]
-    return rtprop.run(ctx, THEOREMS, plan, 'proof',
-                      'start conditions: begin/push/pop/top scripts (underflow included) inside actions, with yywrap chains and EOF rules; yystart() and yy_top_state() are logged and compared' + '. Kernel-checked theorems about the abstract scanner (listed under obligations) + differential '
+    return rtprop.run(ctx, THEOREMS + STACK_THEOREMS, plan, 'proof',
+                      'start conditions: begin/push/pop/top scripts (underflow included) inside actions, with yywrap chains and EOF rules; yystart() and yy_top_state() are logged and compared; the stack functions themselves (yy_push_state, yy_pop_state, yy_top_state, yybegin, yystart, the initialisation of yy_start) are translated from a scanner flex generates in this run into Gen/StartStack.lean and proved to be a LIFO stack for every sequence of calls, never indexing outside the array, with yy_start = 1 + 2*condition once yylex has run (C05Stack.stack_refines, never_out_of_bounds, start_state_encoding)' + '. Kernel-checked theorems about the abstract scanner (listed under obligations) + differential '
                       'correspondence of the real generated scanner (ASan/UBSan build) with that model on generated cases.')
